@@ -110,7 +110,8 @@ func VerifC20Hook() {
 	}
 	if hasURL {
 		verifrt.Assert(!stdinSet || gotStdin == "", "no-stdin-when-url-placeholder-present")
-	} else if symbolic || link != "" {
+	} else if link != "" {
+		// (an empty link on standard input cannot be told from none)
 		verifrt.Assert(stdinSet && gotStdin == link, "link-on-stdin-when-no-url-placeholder")
 	}
 	// the configured hook itself is left as it was (a second open must see the placeholders again)
